@@ -14,6 +14,8 @@ from vlib import w as W
 from vlib.core import Ob
 
 PROPERTY_ID = "C20"
+ENGINE = 'E1 CrossHair 0.0.110 (z3) on the real code'
+TECHNIQUE = 'CrossHair symbolic execution of the real separator_format on symbolic cell strings, read back by a csv reader model validated against _csv each run; and of the real Table row operations on 3-row tables with symbolic small-integer cells and symbolic structural arguments, ndarray.argsort replaced by a stub returning any solver-chosen permutation its contract allows'
 CLAIM = "for every table of <= 2 rows x 2 columns of cell strings within the bound (letters, digits, the delimiter, quotes, spaces, empty cells), reading back what separator_format wrote returns the same header and the same cell text."
 
 
